@@ -222,6 +222,7 @@ func RunC18Leak(ctx *core.Ctx) {
 			}
 		}
 	}
+	c18NoFooterKey(ctx)
 	var wg sync.WaitGroup
 	sem := make(chan struct{}, 16)
 	for idx, c := range cfgs {
@@ -319,4 +320,34 @@ func joinPath(p []string) string {
 		s += x
 	}
 	return s
+}
+
+// c18NoFooterKey: an EncryptionConfig with column keys but no footer key is never validated. The
+// Lean mirror (C18Leak.without_footer_key_pages_are_raw) says the columns without a key of their
+// own are written raw until Close fails on the footer; a nil Close with raw values would be a leak.
+func c18NoFooterKey(ctx *core.Ctx) {
+	defer func() {
+		if p := recover(); p != nil {
+			ctx.Hist("leak_outcome", "no-footer-key: panic (refused)")
+		}
+	}()
+	r := ctx.Rand("c18/leak/nofooterkey")
+	rows, pats := c18LeakRows(r, 400)
+	enc := &c18Enc{EncFooter: true, ColKeys: map[string][]byte{"i": c18RandKey(r)}, KeyMode: "no-footer-key"}
+	var buf bytes.Buffer
+	w := parquet.NewGenericWriter[c18LeakRow](&buf, parquet.WithEncryption(enc.Config()), parquet.PageBufferSize(256), parquet.WriteBufferSize(0))
+	_, werr := w.Write(rows)
+	ferr := w.Flush()
+	cerr := w.Close()
+	found, _ := c18Scan(buf.Bytes(), pats)
+	ctx.Case("leak|no-footer-key|"+enc.Desc(), true)
+	detail := map[string]any{"encryption": enc.Desc(), "write_err": fmt.Sprint(werr), "flush_err": fmt.Sprint(ferr), "close_err": fmt.Sprint(cerr), "columns_in_clear": found, "rand_stream": "c18/leak/nofooterkey"}
+	switch {
+	case len(found) > 0 && werr == nil && ferr == nil && cerr == nil:
+		ctx.Fail("L1", "plaintext-values-leak path=no-footer-key", "a file written with column keys but no footer key was closed without error and holds the other columns in clear", detail)
+	case len(found) > 0:
+		ctx.Observe("no-footer-key-writes-raw-until-close-fails", "EncryptionConfig{ColumnKeys: …} without FooterKey is not validated: the columns without a key of their own reach the sink in clear and the writer only fails when it seals the footer (Lean: C18Leak.without_footer_key_pages_are_raw)", detail)
+	default:
+		ctx.Hist("leak_outcome", "no-footer-key: nothing raw")
+	}
 }
